@@ -1,8 +1,303 @@
-import DFV.Model.C06
+import DFV.Lemmas.C06Fld
+/-!
+# C06 — integrals and means are cell sums times cell measure, consistent across axes
+
+Property theorems about the model of `Field.integrate`, `Field.mean`, `Mesh.sel(dim)` and
+`Mesh.dV` (`DFV/Model/C06.lean`).  Number of dimensions, shape, cell sizes, position of the
+mesh, number of components, data, direction and order of directions are universally
+quantified.  `WF f` = the mesh satisfies `Mesh.Inv` and the value array has the mesh's shape.
+`cget a i c` is component `c` of cell `i`; `sumTo n x = x 0 + … + x (n-1)`;
+`nestSum shape g` is the sum of `g` over all multi-indices of the shape.
+-/
 namespace DFV.C06
 open DFV
 
-/-- placeholder -/
+/-! ## The integral over all directions -/
+
+/-- `integrate()` is, per component, the cell volume times the sum of all cell values
+(the model sums NumPy's flat buffer; the theorem turns it into the sum over all
+multi-indices, for every shape). -/
+theorem integrate_all (f : Fld) :
+    integrate f .none false
+      = .ok (.vals (tab f.nvdim fun c => dV f.mesh * nestSum f.data.shape fun i => cget f.data i c)) := by
+  unfold integrate
+  simp only [Bool.false_eq_true, if_false]
+  congr 2
+  apply tab_congr
+  intro c _
+  unfold sumAll NDA.toList
+  rw [List.map_map, lsum_indicesC, mul_comm]
+  rfl
+
+/-- the cell volume is the product over the axes of edge length / cell count -/
+theorem dV_eq (m : Mesh) : dV m = ratProd (tab m.ndim fun a => m.region.edge a / (m.nAt a : Rat)) := rfl
+
+/-- cell volume × number of cells = volume of the region -/
+theorem dV_times_cells (m : Mesh) (hm : m.Inv) :
+    dV m * (natProd m.n : Rat) = ratProd m.region.edges := dV_mul_count m hm
+
+/-! ## Directional integrals live on the mesh with that axis removed -/
+
+/-- `integrate(d)` (more than one dimension): the result lives on the mesh with the axis of
+`d` removed — corners, dims, units and cell counts of the remaining axes unchanged — keeps
+labels and mapping, drops the unit, is valid everywhere, and its value at the reduced index
+`i` is the cell length of that axis times the sum along that axis. -/
+theorem integrate_dir (f : Fld) (hf : WF f) (d : String) (g : Fld)
+    (h : integrate f (.name d) false = .ok (.field g)) :
+    ∃ ax, f.mesh.region.dim2index d = .ok ax ∧ ax < f.mesh.ndim ∧
+      g.mesh.region.pmin = removeAt f.mesh.region.pmin ax ∧
+      g.mesh.region.pmax = removeAt f.mesh.region.pmax ax ∧
+      g.mesh.region.dims = removeAt f.mesh.region.dims ax ∧
+      g.mesh.region.units = removeAt f.mesh.region.units ax ∧
+      g.mesh.n = removeAt f.mesh.n ax ∧ g.data.shape = removeAt f.mesh.n ax ∧
+      g.nvdim = f.nvdim ∧ g.vdims = f.vdims ∧ g.vmap = f.vmap ∧ g.unit = none ∧
+      (∀ i, g.valid.get i = true) ∧
+      ∀ i c, inRange (removeAt f.mesh.n ax) i = true → c < f.nvdim →
+        cget g.data i c = f.mesh.cellAt ax * sumTo (f.mesh.nAt ax) fun j => cget f.data (insertAt i ax j) c := by
+  obtain ⟨ax, m', hax, _, hsel, hshape, hg⟩ := integrate_dir_unpack f d g h
+  obtain ⟨ax', hax', haxlt, _, hpmin, hpmax, hdims, hunits, _, hn, _, _⟩ := sel_spec f.mesh hf.1 d m' hsel
+  rw [hax] at hax'; injection hax' with hax'; subst hax'
+  subst hg
+  refine ⟨ax, hax, haxlt, hpmin, hpmax, hdims, hunits, hn, ?_, rfl, rfl, rfl, rfl, fun _ => rfl, ?_⟩
+  · show removeAt f.data.shape ax = _
+    rw [hf.2]
+  · intro i c hi hc
+    have hi' : inRange (scaleBy f.nvdim (f.mesh.cellAt ax) (sumAxis f.nvdim f.data ax)).shape i = true := by
+      show inRange (removeAt f.data.shape ax) i = true
+      rw [hf.2]; exact hi
+    simp only
+    rw [cget_force _ _ _ hi', cget_scaleBy _ _ _ _ _ hc, cget_sumAxis _ _ _ _ _ hc, mul_comm, hf.2]
+    rfl
+
+/-- on a 1-d mesh `integrate(d)` returns the bare array: cell length × sum of the cells -/
+theorem integrate_dir_1d (f : Fld) (hf : WF f) (d : String) (v : List Rat)
+    (h : integrate f (.name d) false = .ok (.vals v)) :
+    f.mesh.ndim = 1 ∧ f.mesh.region.dim2index d = .ok 0 ∧
+    v = tab f.nvdim fun c => f.mesh.cellAt 0 * sumTo (f.mesh.nAt 0) fun j => cget f.data [j] c := by
+  obtain ⟨ax, hax, h1, hv⟩ := integrate_dir_1d_unpack f d v h
+  obtain ⟨haxlt, _⟩ := dim2index_ok _ _ _ hax
+  have hdl : f.mesh.region.dims.length = f.mesh.ndim := hf.1.1.2.2.1
+  have hax0 : ax = 0 := by omega
+  subst hax0
+  refine ⟨h1, hax, ?_⟩
+  rw [hv]
+  simp only [scaleBy, sumAxis]
+  apply tab_congr
+  intro c hc
+  simp only [cget]
+  rw [getD_tab _ _ _ _ hc, mul_comm, hf.2]
+  rfl
+
+/-! ## Fubini: any order of directions gives the volume integral -/
+
+/-- Integrating direction by direction, in ANY order `ds` of all the directions (each step on
+the mesh the previous step returned, the last step on a 1-d mesh returning the bare array),
+gives exactly `integrate()`.  Induction over the list of directions; each step removes one
+axis of the nested sum and one factor of the cell volume. -/
+theorem fubini (f : Fld) (hf : WF f) (ds : List String) (hlen : ds.length = f.mesh.ndim) (r : Res)
+    (h : integrateSeq f ds = .ok r) : integrate f .none false = .ok r := by
+  induction ds generalizing f with
+  | nil =>
+    have := hf.1.1.1
+    have h0 : f.mesh.ndim = f.mesh.region.pmin.length := rfl
+    simp at hlen; omega
+  | cons d ds ih =>
+    unfold integrateSeq at h
+    split at h
+    · cases h
+    · rename_i v hv
+      split at h
+      · injection h with h; subst h
+        obtain ⟨h1, hax0, hvv⟩ := integrate_dir_1d f hf d v hv
+        rw [integrate_all, hvv]
+        congr 2
+        apply tab_congr
+        intro c _
+        have hlen1 : f.mesh.n.length = 1 := by rw [hf.1.2.1]; exact h1
+        have hcell : f.mesh.cell = [f.mesh.cellAt 0] := by
+          unfold Mesh.cell; rw [h1]; rfl
+        unfold dV
+        rw [hcell, hf.2]
+        match hn : f.mesh.n, hlen1 with
+        | [k], _ =>
+          have : f.mesh.nAt 0 = k := by unfold Mesh.nAt; rw [hn]; rfl
+          rw [this]
+          simp [nestSum, ratProd]
+      · cases h
+    · rename_i g hg
+      obtain ⟨ax, m', hax, _, hsel, hshape, hgeq⟩ := integrate_dir_unpack f d g hg
+      obtain ⟨ax', hax', haxlt, hpmin, _, _, _, hn, hgshape, hnv, _, _, _, _, hval⟩ := integrate_dir f hf d g hg
+      rw [hax] at hax'; injection hax' with hax'; subst hax'
+      have hgm : g.mesh = m' := by rw [hgeq]
+      have hwf : WF g := ⟨by rw [hgm]; exact sel_inv f.mesh hf.1 d m' hsel, by rw [hgshape, hn]⟩
+      have hlen' : ds.length = g.mesh.ndim := by
+        have h1 : g.mesh.ndim = g.mesh.region.pmin.length := rfl
+        have h2 : f.mesh.ndim = f.mesh.region.pmin.length := rfl
+        rw [h1, hpmin, removeAt_length _ _ (by rw [← h2]; exact haxlt), ← h2, ← hlen]; simp
+      have := ih g hwf hlen' h
+      rw [← this, integrate_all, integrate_all, hnv]
+      congr 2
+      apply tab_congr
+      intro c hc
+      rw [hgshape, sel_dV f.mesh hf.1 d m' hsel ax hax, hgm]
+      rw [nestSum_congr _ _ _ (fun i hi => hval i c hi hc), nestSum_mul_left, hf.2,
+        ← nestSum_removeAt f.mesh.n ax (by rw [hf.1.2.1]; exact haxlt)]
+      unfold Mesh.nAt
+      ring
+
+/-! ## The cumulative integral -/
+
+/-- `integrate(d, cumulative=True)`: same mesh, and the entry at cell `i` is the cell length
+times (the sum of the cells before it along the axis plus half its own value). -/
+theorem cumulative_formula (f : Fld) (d : String) (r : Res)
+    (h : integrate f (.name d) true = .ok r) :
+    ∃ ax g, f.mesh.region.dim2index d = .ok ax ∧ r = .field g ∧ g.mesh = f.mesh ∧
+      g.data.shape = f.data.shape ∧ g.nvdim = f.nvdim ∧ g.unit = none ∧
+      ∀ i c, inRange f.data.shape i = true → c < f.nvdim →
+        cget g.data i c = f.mesh.cellAt ax *
+          (sumTo (i.getD ax 0) (fun l => cget f.data (setAt i ax l) c) + cget f.data i c / 2) := by
+  obtain ⟨ax, hax, _, hr⟩ := integrate_cum_unpack f d r h
+  refine ⟨ax, _, hax, hr, rfl, rfl, rfl, rfl, ?_⟩
+  intro i c hi hc
+  simp only
+  rw [cget_force (cumAxis f.nvdim (f.mesh.cellAt ax) f.data ax) i c hi, cget_cumAxis _ _ _ _ _ _ hc]
+  split
+  · rename_i h0
+    rw [h0]; simp only [sumTo]; ring
+  · rename_i h0
+    rw [cumTo_eq]
+    have : i.getD ax 0 - 1 + 1 = i.getD ax 0 := by omega
+    rw [this]; ring
+
+/-- The last cumulative entry plus half the last cell is the directional integral. -/
+theorem cumulative_last (f : Fld) (hf : WF f) (d : String) (gc gd : Fld)
+    (hc : integrate f (.name d) true = .ok (.field gc))
+    (hd : integrate f (.name d) false = .ok (.field gd)) :
+    ∃ ax, f.mesh.region.dim2index d = .ok ax ∧
+      ∀ i c, inRange f.mesh.n i = true → i.getD ax 0 = f.mesh.nAt ax - 1 → c < f.nvdim →
+        cget gc.data i c + f.mesh.cellAt ax * (cget f.data i c / 2) = cget gd.data (removeAt i ax) c := by
+  obtain ⟨ax, g, hax, hr, _, _, _, _, hcum⟩ := cumulative_formula f d _ hc
+  injection hr with hr; subst hr
+  obtain ⟨ax', hax', haxlt, _, _, _, _, _, _, _, _, _, _, _, hdir⟩ := integrate_dir f hf d gd hd
+  rw [hax] at hax'; injection hax' with hax'; subst hax'
+  refine ⟨ax, hax, ?_⟩
+  intro i c hi hlast hcn
+  have hilen : i.length = f.mesh.n.length := inRange_length _ _ hi
+  have haxi : ax < i.length := by rw [hilen, hf.1.2.1]; exact haxlt
+  have hnpos : 0 < f.mesh.nAt ax := hf.1.2.2 ax haxlt
+  rw [hcum i c (by rw [hf.2]; exact hi) hcn, hdir (removeAt i ax) c (inRange_removeAt _ _ _ hi) hcn]
+  have hsplit : f.mesh.nAt ax = i.getD ax 0 + 1 := by omega
+  rw [hsplit]
+  simp only [sumTo]
+  rw [insertAt_removeAt i ax _ haxi, setAt_getD_self]
+  have hcong : sumTo (i.getD ax 0) (fun j => cget f.data (insertAt (removeAt i ax) ax j) c)
+      = sumTo (i.getD ax 0) (fun l => cget f.data (setAt i ax l) c) :=
+    sumTo_congr _ _ _ fun j _ => by rw [insertAt_removeAt i ax j haxi]
+  rw [hcong]; ring
+
+/-- 1-d form: the bare array returned by `integrate(d)` is the last cumulative entry plus
+half the last cell. -/
+theorem cumulative_last_1d (f : Fld) (hf : WF f) (d : String) (gc : Fld) (v : List Rat)
+    (hc : integrate f (.name d) true = .ok (.field gc))
+    (hd : integrate f (.name d) false = .ok (.vals v)) (c : Nat) (hcn : c < f.nvdim) :
+    cget gc.data [f.mesh.nAt 0 - 1] c + f.mesh.cellAt 0 * (cget f.data [f.mesh.nAt 0 - 1] c / 2) = v.getD c 0 := by
+  obtain ⟨h1, hax0, hv⟩ := integrate_dir_1d f hf d v hd
+  obtain ⟨ax, g, hax, hr, _, _, _, _, hcum⟩ := cumulative_formula f d _ hc
+  injection hr with hr; subst hr
+  rw [hax0] at hax; injection hax with hax; subst hax
+  have hnpos : 0 < f.mesh.nAt 0 := hf.1.2.2 0 (by omega)
+  have hlen : f.mesh.n.length = 1 := by rw [hf.1.2.1]; exact h1
+  have hin : inRange f.data.shape [f.mesh.nAt 0 - 1] = true := by
+    rw [hf.2]
+    match hn : f.mesh.n, hlen with
+    | [k], _ =>
+      have : f.mesh.nAt 0 = k := by unfold Mesh.nAt; rw [hn]; rfl
+      simp [inRange]; omega
+  rw [hcum _ c hin hcn, hv, getD_tab _ _ _ _ hcn]
+  have hsplit : f.mesh.nAt 0 = (f.mesh.nAt 0 - 1) + 1 := by omega
+  conv_rhs => rw [hsplit]
+  simp only [sumTo, List.getD_cons_zero, setAt]
+  ring
+
+/-! ## Means are integrals divided by the integrated extent -/
+
+/-- `mean()` is the integral over all directions divided by the volume of the region. -/
+theorem mean_all_eq (f : Fld) (hf : WF f) :
+    mean f .none = .ok (.vals (tab f.nvdim fun c =>
+      (dV f.mesh * nestSum f.data.shape fun i => cget f.data i c) / ratProd f.mesh.region.edges)) := by
+  unfold mean
+  simp only
+  congr 2
+  unfold meanAll
+  apply tab_congr
+  intro c _
+  unfold sumAll NDA.toList
+  rw [List.map_map, lsum_indicesC, ← dV_mul_count f.mesh hf.1, hf.2]
+  have hd := dV_pos f.mesh hf.1
+  have hn : (0 : Rat) < (natProd f.mesh.n : Rat) := by
+    have : 0 < natProd f.mesh.n := by
+      apply natProd_pos
+      intro k hk
+      obtain ⟨a, ha, rfl⟩ := List.getElem_of_mem hk
+      have := hf.1.2.2 a (by show a < f.mesh.region.ndim; rw [← hf.1.2.1]; exact ha)
+      unfold Mesh.nAt at this
+      simpa [List.getD_eq_getElem?_getD, ha] using this
+    exact_mod_cast this
+  have e : ((fun v : List Rat => v.getD c 0) ∘ f.data.get) = fun i => cget f.data i c := rfl
+  rw [e]
+  field_simp
+
+/-- `mean(d)` is `integrate(d)` divided by the edge length along `d`, on the same reduced
+mesh; the unit is kept. -/
+theorem mean_dir_eq (f : Fld) (hf : WF f) (d : String) (gi : Fld) (r : Res)
+    (hi : integrate f (.name d) false = .ok (.field gi)) (hm : mean f (.name d) = .ok r) :
+    ∃ ax gm, f.mesh.region.dim2index d = .ok ax ∧ r = .field gm ∧ gm.mesh = gi.mesh ∧
+      gm.data.shape = gi.data.shape ∧ gm.unit = f.unit ∧ gm.vdims = f.vdims ∧ gm.vmap = f.vmap ∧
+      ∀ i c, inRange (removeAt f.mesh.n ax) i = true → c < f.nvdim →
+        cget gm.data i c = cget gi.data i c / f.mesh.region.edge ax := by
+  obtain ⟨ax, m', hax, _, hsel, hshape, hg⟩ := integrate_dir_unpack f d gi hi
+  obtain ⟨ax', m'', hax', hsel', _, hr⟩ := mean_name_unpack f d r hm
+  rw [hax] at hax'; injection hax' with hax'; subst hax'
+  rw [hsel] at hsel'; injection hsel' with hsel'; subst hsel'
+  obtain ⟨_, _, haxlt, _⟩ := sel_spec f.mesh hf.1 d m' hsel
+  have haxlt : ax < f.mesh.ndim := by
+    obtain ⟨ax2, hax2, hlt, _⟩ := sel_spec f.mesh hf.1 d m' hsel
+    rw [hax] at hax2; injection hax2 with hax2; subst hax2; exact hlt
+  subst hg
+  refine ⟨ax, _, hax, hr, rfl, rfl, rfl, rfl, rfl, ?_⟩
+  intro i c hin hc
+  have hi1 : inRange (removeAt f.data.shape ax) i = true := by rw [hf.2]; exact hin
+  simp only
+  rw [cget_force _ _ _ (by exact hi1), cget_force _ _ _ (by exact hi1), cget_divBy _ _ _ _ _ hc,
+    cget_scaleBy _ _ _ _ _ hc, hf.2, ← cells_cover f.mesh hf.1 ax haxlt]
+  have hn : ((f.mesh.nAt ax : Nat) : Rat) ≠ 0 := by
+    exact_mod_cast (Nat.pos_iff_ne_zero.mp (hf.1.2.2 ax haxlt))
+  have hcp := cell_pos' f.mesh hf.1 ax haxlt
+  show _ / ((f.mesh.nAt ax : Nat) : Rat) = _
+  field_simp
+
+/-! ## Refusals -/
+
+/-- a cumulative integral over all directions is rejected -/
 theorem cumulative_all_dirs_rejected (f : Fld) : integrate f .none true = .error .value := rfl
+
+/-- `integrate` accepts only a single direction name -/
+theorem integrate_rejects_non_string (f : Fld) (ds : List String) (cum : Bool) :
+    integrate f (.names ds) cum = .error .type ∧ integrate f .other cum = .error .type := ⟨rfl, rfl⟩
+
+/-- an unknown direction is rejected by `integrate` and `mean` -/
+theorem unknown_direction_rejected (f : Fld) (d : String) (cum : Bool) (e : Err)
+    (h : f.mesh.region.dim2index d = .error e) :
+    integrate f (.name d) cum = .error e ∧ mean f (.name d) = .error e := by
+  unfold integrate mean
+  simp only [h]
+  exact ⟨trivial, trivial⟩
+
+/-- duplicate directions are rejected by `mean`; so is a direction that is neither a name
+nor a list of names -/
+theorem mean_rejects (f : Fld) (ds : List String) (h : hasDup ds = true) :
+    mean f (.names ds) = .error .value ∧ mean f .other = .error .value := by
+  unfold mean
+  simp [h]
 
 end DFV.C06
